@@ -1141,3 +1141,16 @@ func (b *Bounds) predicateFacts(z *Zone, cond ssa.Value, truth bool) {
 		}
 	}
 }
+
+// ProveLenGE reports whether len(v) >= k holds throughout block blk.
+func (b *Bounds) ProveLenGE(blk *ssa.BasicBlock, v ssa.Value, k int64) bool {
+	z := b.zoneAt(blk)
+	if z.infeasible() {
+		return true
+	}
+	lt, off, ok := lenTerm(v)
+	if !ok {
+		return false
+	}
+	return z.le(zero, lt, off-k)
+}
